@@ -307,6 +307,12 @@ def check(tier: str) -> Result:
                 "returns (inner state, TimeStep(step_type, observation, extras unchanged; reward_aggregator(reward); discount_aggregator(discount)))", ok, why)
     # ================================================================== R4 conversions
     n = conversion_obligations(res, tree, "C15.R4")
+    # ---- R5: "observations belong to the converted observation space": the converted space is built from the
+    # declared spec, so the spec-conformance clauses decided by C01 (shapes, counter bounds, coordinate bounds) and the
+    # extent/axis wiring of the generators (C07.R1) are necessary here as well
+    from .common import borrow
+    n_c01 = borrow(res, "c01", {"C01.R3": "C15.R5", "C01.R5": "C15.R5", "C01.R8": "C15.R5", "C01.R1": "C15.R5"})
+    n_c01 += borrow(res, "c07", {"C07.R1": "C15.R5"})
     res.analysed = {"classes": [W + "JumanjiToDMEnvWrapper", W + "JumanjiToGymWrapper", W + "MultiToSingleWrapper"], "conversion_obligations": n}
     res.assumptions = ["jax.jit preserves the function; jax.random.split yields independent halves",
                        "the wrapped environment is abstract"]
